@@ -43,7 +43,7 @@ def rawValue (be : Bool) (vr : VR) (v : PValue) : Bytes :=
   match v with
   | .str s => s
   | .strs l => joinBackslash l
-  | _ => if vr = .DS ∨ vr = .IS then (v.numText?).getD [] else (encodePrimitive be v).1
+  | _ => if vr = .DS ∨ vr = .IS then (v.numText?).getD [] else (encodePrimitive be (owWords vr v)).1
 
 /-- text compares by its text, component-wise, ignoring trailing padding -/
 def textCanon (b : Bytes) : List Bytes := (splitBackslash b).map trimTrail
